@@ -197,7 +197,7 @@ func TestC11(t *testing.T) {
 				delete(w, ds[r.Intn(len(ds))]) // wrong arity
 			case 1:
 				delete(w, ds[r.Intn(len(ds))])
-				w["nope"] = "a" // right arity, unknown dimension
+				w["nope"] = []string{"a", "", ""}[r.Intn(3)] // right arity, unknown dimension (an empty value reads like an absent key of a map)
 			case 2:
 				w["extra"] = "a"
 			}
@@ -220,6 +220,19 @@ func TestC11(t *testing.T) {
 			}
 		} else {
 			perm = tuple(r.Intn(2))
+		}
+		if i%3 == 1 && len(adjs) > 0 && len(ds) > 1 {
+			// an adjustment's tuple with one dimension replaced by an unknown one whose value is empty
+			if a := adjs[r.Intn(len(adjs))]; !a.null && len(a.with) == len(ds) {
+				perm = map[string]string{}
+				for d, v := range a.with {
+					perm[d] = v
+				}
+				delete(perm, ds[r.Intn(len(ds))])
+				if len(perm) == len(ds)-1 {
+					perm["cpu"] = ""
+				}
+			}
 		}
 		if i%3 == 0 && r.Intn(2) == 0 {
 			// the value that only exists glued: "arm64" for the second dimension
